@@ -122,7 +122,8 @@ def gen(cls, idx, rng, tier):
         probes.append(dict(
             chip=xy, p=p, seed=rng.randrange(1 << 30),
             iobuf=[rng.randint(0, 64) for _ in range(nblk)],
-            name=rng.choice(["app", "sixteen-chars-ok!", "", "a" * 15])))
+            name=rng.choice(["app", "sixteen-chars-ok!", "", "a" * 15,
+                             "caf\xe9-\u03c0", "\u4e2d\u6587"])))
     ver = rng.choice([(3, 0, 1), (1, 33, 0), (2, 0, 0), (10, 20, 30)])
     legacy = rng.random() < .3
     if legacy:
@@ -389,14 +390,37 @@ def run(case, ctx):
         blocks = []
         for i, ln in enumerate(pb["iobuf"]):
             blocks.append((M.IOBUF_BASE + 0x100 * (i + 1) + 0x1000 * p, ln))
+        datas = []
         for i, (a, ln) in enumerate(blocks):
-            nxt = blocks[i + 1][0] if i + 1 < len(blocks) else 0
             data = bytes(32 + (rng.getrandbits(8) % 90) for _ in range(ln))
             if ln and rng.random() < .3:
                 # consoles print NULs too (terminated records), also last
                 data = data[:-1] + b"\0"
                 if ln > 3 and rng.random() < .5:
                     data = data[:ln // 2] + b"\0" + data[ln // 2 + 1:]
+            datas.append(data)
+        if datas and rng.random() < .4:
+            # text outside ASCII; a character's bytes may straddle two
+            # buffers of the chain (the console is a byte stream)
+            whole = bytearray(b"".join(datas))
+            for _ in range(rng.randint(1, 3)):
+                ch = rng.choice(["\xe9", "\u03c0", "\u2192", "\u4e2d",
+                                 "\U0001f600"]).encode("utf-8")
+                cuts = [sum(len(d) for d in datas[:k])
+                        for k in range(1, len(datas))]
+                at = rng.choice(cuts) - 1 if cuts and rng.random() < .6 \
+                    else rng.randrange(len(whole) + 1)
+                if 0 <= at and at + len(ch) <= len(whole) and \
+                        all(b < 0x80 for b in whole[at:at + len(ch)]):
+                    whole[at:at + len(ch)] = ch
+                    ctx.hit("iobuf_non_ascii")
+            o = 0
+            for k, d in enumerate(datas):
+                datas[k] = bytes(whole[o:o + len(d)])
+                o += len(d)
+        for i, (a, ln) in enumerate(blocks):
+            nxt = blocks[i + 1][0] if i + 1 < len(blocks) else 0
+            data = datas[i]
             c.wr(a, struct.pack("<4I", nxt, 11, 22, ln) +
                  data.ljust(case["iobuf_size"], b"\xee"), log=False)
             text += data
